@@ -605,6 +605,20 @@ func c11HigherScoped(c *mon.Ctx) {
 		{"own section sets a higher-scoped field to a scalar", "[n_verif_c11_hs_cert]\nG = 5\n[n_verif_c11_hs_crl]\nG = 5\n", ""},
 		{"unrelated higher-scoped entry is a scalar", "RFC5280Config = 1\nMozillaRootStorePolicyConfig = true\n", "Opt=7 Flag=false N=0"},
 	}
+	// the generated example configuration, now that lints referring to higher-scoped configuration are registered:
+	// valid TOML, a table for both probes, and loading it changes nothing (judged below as one more document)
+	if def, err := g.DefaultConfiguration(); err != nil {
+		c.V("default-config-error", "DefaultConfiguration() fails once a lint refers to higher-scoped configuration: "+err.Error(), "", nil, nil)
+	} else if tree, err := toml.Load(string(def)); err != nil {
+		c.V("default-config-not-toml", "the generated example configuration is not valid TOML once a lint refers to higher-scoped configuration: "+err.Error(), "", map[string][]byte{"example.toml": def}, nil)
+	} else {
+		for _, n := range []string{"n_verif_c11_hs_cert", "n_verif_c11_hs_crl"} {
+			if _, ok := tree.Get(n).(*toml.Tree); !ok {
+				c.V("default-config-missing-section|"+n, "the generated example configuration has no table for the configurable lint "+n, n, map[string][]byte{"example.toml": def}, nil)
+			}
+		}
+		docs = append(docs, doc{"the generated example configuration", string(def), "Opt=7 Flag=false N=0"})
+	}
 	for _, o := range []*mon.Obj{cert, crl} {
 		if o == nil {
 			continue
